@@ -25,6 +25,7 @@ func checkC10(c *Ctx, r *Report) {
 	r.rule("C10.R6", "the record registered under a newly allocated reference is a record made in that step, not one that another reference already designates", 1)
 	r.rule("C10.R7", "the context a reference is registered in is the one in the pool: after LoadOrStore the request goes on with the stored context (shared with C09.R5) - a reference registered in a private copy designates nothing", 1)
 	r.rule("C10.R8", "the reference keeps designating the record that receives the session's usage: where a session is continued in a new record, the entry under its reference is that new record (shared with C02.R9)", 2)
+	r.rule("C10.R9", "the reference a create answers with is the one it registered its new record under (shared with C12.R1): a create that answers with a reference that exists already hands one session's reference to another", 4)
 	r.rule("C10.R3", "ue.Cdr is written only in create (key = the reference) and in update/release under the request's own reference", 1)
 
 	create := c.fn("internal/sbi/processor", "Processor.ChargingDataCreate")
@@ -152,6 +153,7 @@ func checkC10(c *Ctx, r *Report) {
 	}
 	r.shareFrom(c, checkC09, map[string]string{"C09.R5": "C10.R7"})
 	r.shareFrom(c, checkC02, map[string]string{"C02.R9": "C10.R8"})
+	r.shareFrom(c, checkC12, map[string]string{"C12.R1": "C10.R9"})
 	checkPoolLifetime(c, r, "C10.R5", "a create that fetched the context before the removal registers its record in the orphaned object and answers 201 with a reference that the next update or release (which look the subscriber up again and get a fresh context) cannot find - the reference designates no session")
 }
 
